@@ -403,10 +403,10 @@ def typenamesGen (_seed idx _size : Nat) : Case :=
     { tags := ["fixed", "nt"], model := joinWith ";" (es.map fun e => showName (Model.Scalars.typeName e.1)),
       spec := joinWith ";" (es.map fun e => showName (Txt.asc e.2)), args := es.map fun e => toString e.1 }
   else if idx == 9 then
-    -- the 51 array types DecodeType supports: PostgreSQL's pg_type.typname is `_` ++ element name; the tool has no name for
-    -- them and prints `oid:<n>` (recorded finding ARRNAME)
+    -- the 51 array types DecodeType supports: PostgreSQL's pg_type.typname is `_` ++ element name (finding ARRNAME: the
+    -- tool printed `oid:<n>`; repaired by fixes/scalars/13)
     let es := pgArrayTypeNames
-    { tags := ["fixed", "nt", "kf:ARRNAME"], model := joinWith ";" (es.map fun e => showName (Model.Scalars.typeName e.1)),
+    { tags := ["fixed", "nt", "arraynames"], model := joinWith ";" (es.map fun e => showName (Model.Scalars.typeName e.1)),
       spec := joinWith ";" (es.map fun e => showName (Txt.asc e.2)), args := es.map fun e => toString e.1 }
   else
     let k := idx - 3
